@@ -106,6 +106,11 @@ func checkC15(c C15Case, r *Rec) *Violation {
 
 	logI := &Log{}
 	ccI, _ := NewConfig(u, logI, Build{Mask: 0, Infix: true})
+	// failed infix compilations first (pending operators and operands at the point of failure):
+	// nothing of them may survive into the next compilation
+	for _, broken := range []string{"1 + no_such_function(2)", "a b", c.Infix + " +", "(" + c.Infix, "7 * (3 + , 2"} {
+		SafeCompile(ccI, broken)
+	}
 	eI, co := SafeCompile(ccI, c.Infix)
 	where := func() string { return fmt.Sprintf("prefix=%s\ninfix =%s", psrc, c.Infix) }
 	if co.Panic != nil || co.Err != nil {
@@ -220,6 +225,18 @@ func sweepC15(tier string, shard, shards int, emit func(C15Case)) {
 		} {
 			emit(C15Case{U: u, Tree: tr, Infix: m.RenderInfix(tr, m.InfixOpts{}), NoEval: true, Origin: "sweep-not"})
 			emit(C15Case{U: u, Tree: tr, Infix: m.RenderInfix(tr, m.InfixOpts{Tight: func() bool { return true }}), NoEval: true, Origin: "sweep-not-tight"})
+		}
+	}
+	// a call, an if and a list at every depth 1..80 of right-nested additions and of redundant parentheses
+	for d := 1; d <= 80; d++ {
+		for _, bottom := range []*m.Node{m.Op("mod", v("b"), v("c")), m.If(v("p"), v("b"), v("c")), m.Op("c_sum"), m.Op("in", v("b"), m.Const([]int64{1, -2, 3}))} {
+			tr := bottom
+			for i := 0; i < d; i++ {
+				tr = m.Op("+", v("a"), tr)
+			}
+			emit(C15Case{U: u, Tree: tr, Infix: m.RenderInfix(tr, m.InfixOpts{}), NoEval: true, Origin: "sweep-depth"})
+			flat := m.Op("*", v("a"), bottom)
+			emit(C15Case{U: u, Tree: flat, Infix: "a * " + strings.Repeat("(", d) + m.RenderInfix(bottom, m.InfixOpts{}) + strings.Repeat(")", d), NoEval: true, Origin: "sweep-redundant-parentheses"})
 		}
 	}
 	// triples: a o1 b o2 c o3 d in the left-associated shape for a sample of operators
